@@ -72,6 +72,7 @@ type c20Viol struct {
 	Panic    string        `json:"panic,omitempty"`
 	Harness  string        `json:"harness"`
 	Match    *c20MatchCase `json:"match_case,omitempty"`
+	XList    *c20XlCase    `json:"xlist_case,omitempty"`
 	Via      string        `json:"via,omitempty"`
 	Inverted bool          `json:"inverted,omitempty"`
 	Short    bool          `json:"shorter_than_values,omitempty"`
@@ -136,6 +137,7 @@ func c20Rules(t2 int) (Rules, error) {
 
 type c20Stats struct {
 	executed, steps, flips, unbans, casesWithBan, casesWithUnban, drift, dumpDrift int
+	xlCases                                                                        int
 	matchCases                                                                     int
 	determined                                                                     int
 	driftSample                                                                    []string
@@ -453,6 +455,60 @@ func c20RunMatch(c *c20MatchCase, ctl *metric.Ctl, st *c20Stats) {
 	st.matchCases++
 }
 
+// ---- exception lists: which exception is matched against what
+
+type c20XlCase struct {
+	Excs   [][]int `json:"excs"` // per exception: check_source_name, its rule matches the record, matches the source name
+	Exempt bool    `json:"exempt"`
+	Mex    bool    `json:"mex"`
+}
+
+func c20RunXl(c *c20XlCase, ctl *metric.Ctl, st *c20Stats) {
+	defer func() {
+		if r := recover(); r != nil {
+			st.add(&c20Viol{Kind: "panic", XList: c, Panic: fmt.Sprint(r), Harness: "antispam-xlist"})
+		}
+	}()
+	var exc Exceptions
+	content, name := "ev", "src"
+	for i, e := range c.Excs {
+		tok := fmt.Sprintf("<%d>", i+1)
+		exc = append(exc, Exception{
+			RuleSet:         matchrule.RuleSet{Name: fmt.Sprintf("c20x%d", i+1), Cond: matchrule.CondOr, Rules: []matchrule.Rule{{Mode: matchrule.ModeContains, Values: []string{tok}}}},
+			CheckSourceName: e[0] == 1,
+		})
+		if e[1] == 1 {
+			content += " " + tok
+		}
+		if e[2] == 1 {
+			name += " " + tok
+		}
+	}
+	exc.Prepare()
+	a := NewAntispammer(&Options{MaintenanceInterval: time.Second, Threshold: 1, UnbanIterations: 4, Exceptions: exc,
+		Logger: zap.NewNop(), MetricsController: ctl})
+	now := time.Date(2024, 1, 2, 3, 4, 5, 0, time.UTC)
+	// several records: none of a matching source may be counted, let alone refused
+	for k := 0; k < 3; k++ {
+		verdict := a.IsSpam("1", name, false, []byte(content), now, nil)
+		st.steps++
+		if c.Exempt {
+			st.determined++
+			if verdict {
+				st.add(&c20Viol{Kind: "exception_dropped", XList: c, ExcKind: "exception", Via: "list", Step: k, Harness: "antispam-xlist"})
+			}
+		}
+		if verdict == c.Mex {
+			st.drift++
+			if len(st.driftSample) < 5 {
+				b, _ := json.Marshal(c)
+				st.driftSample = append(st.driftSample, fmt.Sprintf("exception list: real verdict=%v, model exempt=%v; case %s", verdict, c.Mex, b))
+			}
+		}
+	}
+	st.xlCases++
+}
+
 func TestVerifC20(t *testing.T) {
 	in := os.Getenv("VERIF_CASES")
 	out := os.Getenv("VERIF_OUT")
@@ -478,6 +534,14 @@ func TestVerifC20(t *testing.T) {
 				c := &c20Case{}
 				if err := json.Unmarshal(ln, c); err != nil {
 					panic(fmt.Sprintf("bad case line: %v", err))
+				}
+				if c.Part == "xlist" {
+					x := &c20XlCase{}
+					if err := json.Unmarshal(ln, x); err != nil {
+						panic(fmt.Sprintf("bad exception-list case line: %v", err))
+					}
+					c20RunXl(x, ctl, stats[wi])
+					continue
 				}
 				if c.Part == "match" {
 					m := &c20MatchCase{}
@@ -510,6 +574,7 @@ func TestVerifC20(t *testing.T) {
 		tot.dumpDrift += s.dumpDrift
 		tot.determined += s.determined
 		tot.matchCases += s.matchCases
+		tot.xlCases += s.xlCases
 		for _, d := range s.driftSample {
 			if len(tot.driftSample) < 5 {
 				tot.driftSample = append(tot.driftSample, d)
@@ -533,7 +598,7 @@ func TestVerifC20(t *testing.T) {
 	res := map[string]interface{}{
 		"executed": tot.executed, "steps": tot.steps, "bans": tot.flips, "unbans": tot.unbans,
 		"cases_with_ban": tot.casesWithBan, "cases_with_unban": tot.casesWithUnban,
-		"determined": tot.determined, "match_cases": tot.matchCases, "drift": tot.drift, "dump_drift": tot.dumpDrift,
+		"determined": tot.determined, "match_cases": tot.matchCases, "xlist_cases": tot.xlCases, "drift": tot.drift, "dump_drift": tot.dumpDrift,
 		"drift_samples": tot.driftSample, "violations": all, "violation_counts": tot.counts,
 	}
 	b, _ := json.Marshal(res)
